@@ -177,7 +177,7 @@ def run(ctx, rep):
             ik = "%s/%s" % (b["key"], cls)
             from ..facts import OWNING_HANDLES
 
-            if hn == "Arc" or (cls == model.ATOMIC_RMW_ADD and _tr == "core::clone::Clone" and hn in OWNING_HANDLES):  # an increment needs no ordering (R-ORD-INC): any owning handle's own Clone may take it
+            if hn == "Arc" or (cls == model.ATOMIC_RMW_ADD and (_tr == "core::clone::Clone" or (_tr or "").endswith("ref_cnt::RefCnt")) and hn in OWNING_HANDLES):  # an increment needs no ordering (R-ORD-INC): any owning handle's own Clone may take it
                 rep.ok("R-FUNNEL", ik, cfg=tag)
             else:
                 rep.bad("R-FUNNEL", ik, "a read-modify-write of the count word lives outside Arc's own clone/release code: the lemma's premises would have to be re-established for it", F.loc(b, t["span"]), tag)
